@@ -56,6 +56,8 @@ CONSTANTS
   OblIdempotent,     \* C10: a repeated rollback does nothing
   OblFence,          \* C06: confirm/cancel at most once and never both; empty rollback suspends
   OblP1Atomic,       \* C02: business writes and the undo log are committed together (or not at all)
+  OblLockQuery,      \* C03: a locking read returns rows only after the coordinator confirmed they are lockable
+  AllowReads,        \* BOOLEAN: locking reads (SELECT .. FOR UPDATE inside a global transaction) take part
   OblHonest,         \* C01/C15: 'rollbacked' is answered only when the rows are restored and the undo log is gone
   AllowXA,           \* BOOLEAN: XA branches take part
   OblXATruthful      \* C17: a phase one that failed (branch rolled back in the database) surfaces as an error
@@ -83,11 +85,12 @@ VARIABLES
   dups,       \* duplications used so far
   nforeign,   \* foreign writes so far
   \* ---- XA
+  dirtyRead,  \* BOOLEAN: some locking read returned a row written by another unfinished global transaction
   xa,         \* [G, branch index] -> "none" | "prepared" | "committed" | "rolledback": the branch in its database
   p1err       \* G -> BOOLEAN: some statement of the business callback returned an error
 
-xvars == <<xa, p1err>>
-vars == <<gst, branches, lock, val, undo, before, fence, eff, outcome, sent, net, dups, nforeign, xa, p1err>>
+xvars == <<xa, p1err, dirtyRead>>
+vars == <<gst, branches, lock, val, undo, before, fence, eff, outcome, sent, net, dups, nforeign, xa, p1err, dirtyRead>>
 
 BIdx == 1..MaxBranches
 Slots == G \X BIdx
@@ -106,6 +109,7 @@ Init ==
   /\ net = {} /\ dups = 0 /\ nforeign = 0
   /\ xa = [s \in Slots |-> "none"]
   /\ p1err = [g \in G |-> FALSE]
+  /\ dirtyRead = FALSE
 
 -----------------------------------------------------------------------------
 (* TM *)
@@ -313,7 +317,7 @@ XABranch(g, ok) ==
      /\ xa' = [xa EXCEPT ![<<g, i>>] = IF ok THEN "prepared" ELSE "rolledback"]
      \* C17: the failure reaches the caller (and is reported to the coordinator); without the obligation it is swallowed
      /\ p1err' = [p1err EXCEPT ![g] = @ \/ (~ok /\ OblXATruthful)]
-  /\ UNCHANGED <<gst, lock, val, undo, before, fence, eff, outcome, sent, net, dups, nforeign>>
+  /\ UNCHANGED <<gst, lock, val, undo, before, fence, eff, outcome, sent, net, dups, nforeign, dirtyRead>>
 
 XAPhaseTwo(m) ==
   /\ m \in net /\ branches[m.g][m.i].kind = "XA"
@@ -325,7 +329,20 @@ XAPhaseTwo(m) ==
                [] OTHER               -> UNCHANGED <<xa, branches>>     \* XAER_NOTA: no truthful 'committed' is possible
         ELSE /\ xa' = [xa EXCEPT ![s] = IF @ = "prepared" THEN "rolledback" ELSE @]
              /\ branches' = IF xa[s] # "committed" THEN SetBranch(m.g, m.i, "rollbacked") ELSE branches
-  /\ UNCHANGED <<gst, lock, val, undo, before, fence, eff, outcome, sent, dups, nforeign, p1err>>
+  /\ UNCHANGED <<gst, lock, val, undo, before, fence, eff, outcome, sent, dups, nforeign, p1err, dirtyRead>>
+
+\* C03, second clause: SELECT .. FOR UPDATE of rows inside global transaction g.  The rows are returned only if
+\* the coordinator says nobody else holds their global locks (no lock is taken: the local row locks protect the
+\* rows until the local transaction ends, which this step abstracts).  What is read is remembered only as
+\* "was any of it the uncommitted write of another global transaction".
+LockingRead(g, rows) ==
+  /\ AllowReads /\ gst[g] = "begun" /\ outcome[g] = "none" /\ rows # {}
+  /\ (OblLockQuery => \A r \in rows : lock[r] \in {NoG, g})      \* otherwise: conflict, nothing is returned
+  /\ dirtyRead' = (dirtyRead \/ \E r \in rows : val[r] \in G \ {g} /\ gst[val[r]] \in {"begun", "rollbacking"}
+                                                 /\ \E i \in BIdx : i <= Len(branches[val[r]])
+                                                      /\ branches[val[r]][i].kind = "AT" /\ r \in branches[val[r]][i].rows
+                                                      /\ undo[<<val[r], i>>] = "normal")
+  /\ UNCHANGED <<gst, branches, lock, val, undo, before, fence, eff, outcome, sent, net, dups, nforeign, xa, p1err>>
 
 Next ==
   \/ /\ UNCHANGED xvars
@@ -338,6 +355,7 @@ Next ==
         \/ \E r \in Rows : ForeignWrite(r)
         \/ \E m \in net : Duplicate(m) \/ Lose(m) \/ ATCommit(m) \/ ATRollback(m) \/ ATRollbackLie(m) \/ TCCPhaseTwo(m)
   \/ \E g \in G, ok \in BOOLEAN : XABranch(g, ok)
+  \/ \E g \in G, rows \in SUBSET Rows : LockingRead(g, rows)
   \/ \E m \in net : XAPhaseTwo(m)
 
 Spec == Init /\ [][Next]_vars
@@ -378,6 +396,10 @@ XAAtomic ==
       /\ gst[g] = "committed" => x = "committed"
       /\ gst[g] = "rollbacked" => x = "rolledback"
       /\ x = "committed" => gst[g] \in {"committing", "committed"}
+
+\* Read isolation for locking reads (C03): no SELECT .. FOR UPDATE inside a global transaction ever returned the
+\* write of another global transaction that could still be rolled back
+NoDirtyGlobalRead == ~dirtyRead
 
 \* the coordinator's decision follows the business outcome (unless it timed the transaction out)
 DecisionTruthful ==
